@@ -3,4 +3,5 @@ use lem_drop::{wf_from, pos, drop_pre};
 use lem_term::{measure, trank};
 use lem_exact::{exact_x, exact_final, exact_final_shells, exact_marked, exact_self, dead_exact};
 use lem_pace::{pace_x, cycle_const, no_sleep_since};
+use lem_dtor::sweep_one_unwind_rel;
 broadcast use {axioms::ax_debt_empty, axioms::ax_debt_zero_factors, axioms::ax_debt_reset, bcast::group_driver, lem_drop::group_drop, bcast_x::group_exact, bcast_p::group_pace};
